@@ -47,6 +47,15 @@ func handPickedNamed() map[string]Case {
 	return map[string]Case{
 		"F-20f-enum-constant-collision": {Schema: clash, Docs: []Doc{{Defs: []Def{q(f("a", f("c")))}}}, Seed: 7, Worlds: 4},
 		"F-20g-sel-type-name-collision": sn,
+		"repeated-type-condition-with-directive": mk(
+			q(f("u", f("__typename"), on("Alpha", f("x")), Sel{Kind: "i", Cond: "Alpha", Dir: "@include(if: true)", Sels: []Sel{f("c")}},
+				Sel{Kind: "i", Cond: "Beta", Dir: "@skip(if: false)", Sels: []Sel{f("y")}}, on("Beta", f("grid"))),
+				Sel{Kind: "f", Name: "s", Dir: "@include(if: true)"})),
+		"hostile-descriptions":          withSchema(func(s *SchemaSpec) { s.DescMode = 2 }, q(f("a", f("c"), f("x")), f("u", f("__typename"), on("Alpha", f("c"))))),
+		"single-line-descriptions":      withSchema(func(s *SchemaSpec) { s.DescMode = 1 }, q(f("a", f("c")))),
+		"undeclared-include-directive":  withSchema(func(s *SchemaSpec) { s.Dirs = "none" }, q(Sel{Kind: "f", Name: "s", Dir: "@include(if: true)"})),
+		"undeclared-skip-on-fragment":   withSchema(func(s *SchemaSpec) { s.Dirs = "include" }, q(f("u", f("__typename"), Sel{Kind: "i", Cond: "Alpha", Dir: "@skip(if: false)", Sels: []Sel{f("x")}}))),
+		"declared-custom-directive":     withSchema(func(s *SchemaSpec) { s.Dirs = "custom"; s.DescMode = 2 }, q(Sel{Kind: "f", Name: "s", Dir: "@tag"}, f("a", Sel{Kind: "f", Name: "x", Dir: "@skip(if: false)"}))),
 		"subscription-root-without-mutation-root": subscriptionOnly(false),
 		"subscription-root-with-mutation-root":    subscriptionOnly(true),
 		"interface-only-self-referential-object": interfaceOnly(),
@@ -157,4 +166,10 @@ func subscriptionOnly(withMutation bool) Case {
 	s2 := Def{Kind: "subscription", Name: "S2", Sels: []Sel{on("Subscription", fa("beat", "tick"))}}
 	q := Def{Kind: "query", Name: "Q1", Sels: []Sel{f("s")}}
 	return Case{Schema: s, Docs: []Doc{{Defs: []Def{s1}}, {Defs: []Def{s2}}, {Defs: []Def{q}}}, Seed: 14, Worlds: 4}
+}
+
+func withSchema(edit func(*SchemaSpec), defs ...Def) Case {
+	s := fixedSchema()
+	edit(&s)
+	return Case{Schema: s, Docs: []Doc{{Defs: defs}}, Seed: 7, Worlds: 4}
 }
